@@ -13,6 +13,7 @@ import (
 	"verif/harness/race"
 	"verif/harness/rec"
 	"verif/harness/sched"
+	"verif/harness/world"
 )
 
 // The reported totals under concurrency: 2..3 requests (swaps, mints, melts - some sharing inputs or outputs)
@@ -21,11 +22,23 @@ import (
 // proofs it reports SPENT, and the balance is their non-negative difference. The harness is shared with C01
 // (package race).
 
+// verdictT is used for confirmation re-runs inside the verdict functions.
+var verdictT world.T = panicT{}
+
+type panicT struct{}
+
+func (panicT) Fatalf(format string, a ...any) { panic(fmt.Sprintf(format, a...)) }
+func (panicT) Logf(format string, a ...any)   {}
+
 var schedKinds = []string{"swap", "swap", "mint", "mint", "melt"}
 
 func totalsVerdict(cs race.Case, r *race.Result) (string, string) {
 	if r.SchedErr != nil {
-		return "C16|sched|scheduler_error", r.SchedErr.Error()
+		if race.SchedErrReproduces(verdictT, cs, r.Choices) {
+			return "C16|sched|scheduler_error", r.SchedErr.Error()
+		}
+		rec.Inconclusive()
+		return "", ""
 	}
 	if r.Panic != "" {
 		return "C16|sched|panic|" + strings.SplitN(r.Panic, ":", 2)[0], r.Panic
